@@ -142,7 +142,7 @@ CLAIMED = {
         "functions that may be rejected, with drawn log-status, are embedded in 1-3 equation models; at a drawn non-steady data point every "
         "residual value and every derivative row of aldi's eval_to_arrays (chain rule for log-variables, shock + anticipated shock) must equal the "
         "harness's dual-number result, and at drawn steady levels every cell of systemize()'s A, B, D, F, G, J must sit in the row/column of its "
-        "equation/token and every occurrence with a non-zero derivative must have a column. The steady-state (flat and non-flat) and stacked-time (terminal first_order/data) evaluators are captured by wrapping the "
+        "equation/token, every occurrence with a non-zero derivative must have a column, and the same point assigned as the second of two parameter variants must give the same matrices. The steady-state (flat and non-flat) and stacked-time (terminal first_order/data) evaluators are captured by wrapping the "
         "solver entry points in the harness process and their Jacobians compared with extrapolated central differences at drawn points, asked for "
         "before any function evaluation, after one at the same point and after one at another point.",
         "Kinks and out-of-domain points are excluded; rejection (an exception) is allowed for the listed functions; tolerance 1e-9 (analytic), 1e-5 (context functions), 1e-6 (finite differences).",
@@ -152,7 +152,8 @@ CLAIMED = {
         "Hypothesis-generated model families with constructively known steady paths; own evaluator on the returned (level, change) path at several dates; metamorphic block/variant relations",
         "Additive linear (stationary or with an exact random walk with drift), log-linear with log-variables (stationary or balanced growth) and "
         "anchored nonlinear models are generated with parameters, 1-2 variants, perturbed starting guesses, flat and split_into_blocks flags and "
-        "steady plans (fix_level; exogenize a variable + endogenize a parameter). Whenever solve_steady returns, the harness builds the steady "
+        "steady plans (fix_level; fix_change with the drift endogenized; exogenize a variable + endogenize a parameter), flag overrides (flat=True on a non-flat "
+        "model, linear=False on a linear one) and a loosened eigenvalue tolerance. Whenever solve_steady returns, the harness builds the steady "
         "path from get_steady_levels/get_steady_changes (linear, or geometric for log-variables) and evaluates every equation as written with its "
         "own evaluator at dates 0, 3 and -2; planned quantities must keep their values, endogenized parameters must move, flat models must "
         "report no change, blocks on/off and variant k vs its single-variant model must agree.",
@@ -165,7 +166,8 @@ CLAIMED = {
         "stacked_time (terminal/initial_guess in {first_order, data}) and period_by_period runs that report success must satisfy every "
         "transition equation as written to 10x the solver tolerance in every simulated period - leads read from the frame's own databox and, "
         "after the span, from the terminal condition rebuilt by the harness - leave measurement variables at their inputs, write frames back "
-        "consistently, and on additive-linear and log-linear models coincide with method='first_order' for the same inputs.",
+        "consistently, and on additive-linear and log-linear models coincide with method='first_order' for the same inputs; one call over two data "
+        "variants of the shock paths must give each variant the result of its own single run.",
         "Conditional on reported success (explicit solver tolerance 1e-9); mild nonlinearities only; deviation mode not generated.",
         "DESIGN.md section 3, C06",
     ),
@@ -185,18 +187,18 @@ CLAIMED = {
         "rendered to text; after simulate() the harness's own evaluator checks transform(lhs) = rhs + residual in every simulated period, the "
         "value and residual back-out at points exogenized directly / through a transform / when data are available, untouched cells, identities "
         "without residual, and agreement of the two execution orders whenever the harness's dependency analysis says no stale cell was read; a "
-        "shuffled rendering is judged as written and again after sequentialize().",
+        "shuffled rendering is judged as written and again after sequentialize(); target_db= and parameter-named items in the input databox are exercised.",
         "Rounding-bound tolerance (1e-10 x accumulated magnitudes); out-of-domain cases are skipped by a harness-side simulation.",
         "DESIGN.md section 3, C17",
     ),
     "C19": (
         "Hypothesis-generated databoxes: CSV round trip through temp files, dataslate round trip, and model-based databox operation sequences against dict mirrors",
         "Databoxes mixing all frequencies, spans, 1-3 variants, NaNs and descriptions are written with the offered CSV options and read back "
-        "(names, descriptions, frequencies, spans, values to the declared rounding); Dataslate.from_databox(...).to_databox() must return the "
+        "(names, descriptions, frequencies, spans, values to the declared rounding; stepped, tuple and backward spans; observation-free series); Dataslate.from_databox(...).to_databox() (output_names, base columns, clipping) must return the "
         "input on the span and NaN elsewhere with fallbacks/overwrites exactly where declared; sequences of overlay, underlay, clip, prepend, "
         "copy, shallow, rename, keep, remove, merge with list/predicate/None selections are mirrored on dict models and compared after every "
         "step incl. bit-identity of untouched items and the documented aliasing of copy vs shallow.",
-        "Undocumented content (empty series, scalars through CSV, delimiter inside descriptions, rename collisions) is not generated or not asserted; see ASSUMPTIONS.",
+        "Undocumented content (scalars through CSV, delimiter inside descriptions, rename collisions) is not generated or not asserted; see ASSUMPTIONS.",
         "DESIGN.md section 3, C19",
     ),
     "C20": (
